@@ -19,6 +19,7 @@ import (
 	"fmt"
 	"io"
 	"os"
+	"os/exec"
 	"strconv"
 	"strings"
 	"sync"
@@ -95,6 +96,8 @@ func verifHelperMain(args []string) int {
 		return verifHelperClient(fault, log)
 	case "refserver":
 		return verifHelperServer(fault, log)
+	case "proc":
+		return verifHelperProc(fault)
 	}
 	return 64
 }
@@ -291,4 +294,35 @@ func verifHelperServer(fault string, log *verifHelperLog) int {
 
 func verifInst(protocol, version int, tls, cert bool) string {
 	return fmt.Sprintf("p%d/v%d/tls=%v/cert=%v", protocol, version, tls, cert)
+}
+
+// verifHelperProc: a peer that only matters for how it ends.
+//   polite   exits promptly on SIGTERM        stubborn  ignores SIGTERM
+//   holder   exits on SIGTERM but leaves a grandchild holding its stdout open
+//   selfexit ends by itself after 50 ms
+func verifHelperProc(kind string) int {
+	sigs := make(chan os.Signal, 1)
+	switch kind {
+	case "polite":
+		signal.Notify(sigs, syscall.SIGTERM)
+		<-sigs
+		return 0
+	case "stubborn":
+		signal.Ignore(syscall.SIGTERM)
+		time.Sleep(60 * time.Second)
+		return 0
+	case "holder":
+		signal.Notify(sigs, syscall.SIGTERM)
+		child := exec.Command("sleep", "60")
+		child.Stdout = os.Stdout
+		if err := child.Start(); err != nil {
+			return 3
+		}
+		<-sigs
+		return 0
+	case "selfexit":
+		time.Sleep(50 * time.Millisecond)
+		return 0
+	}
+	return 64
 }
